@@ -30,12 +30,14 @@ type Config struct {
 	StopOnFirst   bool
 	DecodedStrMax int
 	Thorough      bool
+	Delays        int  // delay bound for the scheduler (deviations from the default order)
+	Summarize     bool
 }
 
 func defaultConfig() Config {
 	return Config{Unwind: 300, MaxDepth: 200, MaxSteps: 3_000_000, MaxPaths: 2_000_000, MaxConcretize: 64,
 		MaxAlloc: 1 << 16, Preempt: 0, MapOrders: true, Workers: 16, SolverKind: "z3", TimeoutMs: 30000, StopOnFirst: true,
-		DecodedStrMax: 2}
+		DecodedStrMax: 2, Summarize: true, Delays: 2}
 }
 
 type HarnessResult struct {
@@ -58,6 +60,9 @@ type HarnessResult struct {
 	SchedPoints int
 	Wall        time.Duration
 	Budget      bool
+	Summarized  int
+	CacheHits   int
+	ForkSites   map[string]int
 	Pruned      int
 	PrunedWhy   map[string]int
 	MaxThreads  int
@@ -94,22 +99,27 @@ func newEngine(P *Program, cfg Config) *Engine {
 }
 
 func (e *Engine) lookupIntrinsic(fn *ssa.Function) (Intrinsic, bool) {
+	ix, _, ok := e.lookupIntrinsicKey(fn)
+	return ix, ok
+}
+
+func (e *Engine) lookupIntrinsicKey(fn *ssa.Function) (Intrinsic, string, bool) {
 	name := fn.String()
 	if ix, ok := e.intrinsics[name]; ok {
-		return ix, true
+		return ix, name, true
 	}
 	// harness primitives are matched by bare name in any module package
 	if fn.Pkg != nil && e.P.isModulePkg(fn.Pkg.Pkg) && fn.Signature.Recv() == nil {
 		if ix, ok := e.intrinsics["prim:"+fn.Name()]; ok {
-			return ix, true
+			return ix, "prim:" + fn.Name(), true
 		}
 	}
 	if o := fn.Origin(); o != nil {
 		if ix, ok := e.intrinsics[o.String()]; ok {
-			return ix, true
+			return ix, o.String(), true
 		}
 	}
-	return nil, false
+	return nil, "", false
 }
 
 func (e *Engine) noteUnknown(h, what string) {
@@ -135,7 +145,7 @@ func (e *Engine) RunHarness(pkgPath, name string) (*HarnessResult, error) {
 		return nil, fmt.Errorf("harness %s.%s not found", pkgPath, name)
 	}
 	res := &HarnessResult{Name: name, Aborts: map[string]int{}, Unwinds: map[string]int{}, Unknowns: map[string]int{},
-		PrunedWhy: map[string]int{}, Reach: map[string]int{}, Entered: map[string]bool{}, Notes: map[string]bool{}}
+		ForkSites: map[string]int{}, PrunedWhy: map[string]int{}, Reach: map[string]int{}, Entered: map[string]bool{}, Notes: map[string]bool{}}
 	t0 := time.Now()
 	e.mu.Lock()
 	e.cur = res
@@ -226,7 +236,7 @@ func (e *Engine) runPath(fn *ssa.Function, name string, prefix []int, solver *So
 	st := &State{eng: e, solver: solver, harness: name, prefix: prefix,
 		globals: map[*ssa.Global]*Value{}, initDone: map[*ssa.Package]bool{}, tagCount: map[string]int{},
 		reach: map[string]bool{}, entered: map[string]bool{}, mutexes: map[*Value]*mutexState{}, wgs: map[*Value]*wgState{},
-		sems: map[*Value]*semState{}, strIntern: map[string]uint64{}, ghost: map[string]Value{}, typeIDs: map[string]int{}}
+		sems: map[*Value]*semState{}, known: map[[2]uint64]bool{}, strIntern: map[string]uint64{}, ghost: map[string]Value{}, typeIDs: map[string]int{}}
 	main := &Thread{st: st, id: 0, resume: make(chan struct{}), name: "main"}
 	st.threads = []*Thread{main}
 	st.cur = main
@@ -266,6 +276,11 @@ func (e *Engine) runPath(fn *ssa.Function, name string, prefix []int, solver *So
 	defer e.mu.Unlock()
 	res.Paths++
 	res.Steps += int64(st.steps)
+	res.Summarized += st.summarized
+	res.CacheHits += st.cacheHits
+	for _, f := range st.forkSites {
+		res.ForkSites[f]++
+	}
 	if st.maxVisits > res.MaxVisits {
 		res.MaxVisits = st.maxVisits
 	}
